@@ -59,6 +59,22 @@ template <class S> static LD cond2(const DMat<S>& M)
     return s > 0 ? (LD) (svd.singularValues()[0] / s) : std::numeric_limits<LD>::infinity();
 }
 
+// A wrapper is a function of its matrix (and shift) only: applying it to x again, after it has been applied to something else of a very different
+// size, gives the same bits as the first time (no warm start, no cache that leaks into the result).
+template <class S, class Fn>
+static void stateless_check(vf::Ctx& ctx, const std::string& inst, const char* what, int n, const DVec<S>& x, const DVec<S>& y_first, Fn apply)
+{
+    using R = typename Eigen::NumTraits<S>::Real;
+    DVec<S> big = rvec<S>(ctx.rng, n) * S(R(1e9)), tmp(n), again(n);
+    try { apply(big, tmp); apply(x, again); }
+    catch (const std::exception&) { viol(ctx, inst, (std::string(what) + "-threw-on-repeat").c_str(), n, 0, 0); return; }
+    ctx.count("statelessness_checks");
+    // (value comparison: the bytes of a long double include padding that no store defines)
+    bool same = true;
+    for (int i = 0; i < n; i++) same = same && (again[i] == y_first[i]);
+    if (!same) viol(ctx, inst, (std::string(what) + "-depends-on-earlier-calls").c_str(), n, (LD) fnorm(VecCLD((again - y_first).template cast<CLD>())), 0);
+}
+
 // ------------------------------------------------------------------------------------------------ products
 // MK(poison) builds the presented matrix from the full reference F; the wrapper is constructed on it
 template <class S, class Op, class Maker>
@@ -75,6 +91,7 @@ static void product_check(vf::Ctx& ctx, const std::string& inst, int n, const DM
     op2.perform_op(x.data(), y2.data());
     ctx.count("applications", 2);
     if (bytes_of(y1) != bytes_of(y2)) viol(ctx, inst, "other-triangle-changes-perform_op", n, 0, 0);
+    stateless_check<S>(ctx, inst, "perform_op", n, x, y1, [&](const DVec<S>& in, DVec<S>& out) { op1.perform_op(in.data(), out.data()); });
     const MatCLD FL = F.template cast<CLD>();
     const VecCLD want = FL * x.template cast<CLD>();
     const LD err = fnorm(VecCLD(y1.template cast<CLD>() - want)), allow = C * n * u * fnorm(FL) * fnorm(x.template cast<CLD>());
@@ -173,6 +190,7 @@ static void reg_sym_family()
         DVec<T> y1(n), y2(n);
         o1.perform_op(x.data(), y1.data()); o2.perform_op(x.data(), y2.data());
         if (bytes_of(y1) != bytes_of(y2)) viol(ctx, inst, "other-triangle-changes-perform_op", n, 0, 0);
+        stateless_check<T>(ctx, inst, "perform_op", n, x, y1, [&](const DVec<T>& in, DVec<T>& out) { o1.perform_op(in.data(), out.data()); });
         solve_judge<T>(ctx, inst, "perform_op-not-inv(A-sigma*I)*x", n, Fs, x, y1);
         ctx.count("applications", 2);
         with_presentations(P1, [&](const auto& ref, const char* pres) {
@@ -259,6 +277,7 @@ static void reg_sparse_sym_family(const char* siname)
         DVec<T> y1(n), y2(n);
         o1.perform_op(x.data(), y1.data()); o2.perform_op(x.data(), y2.data());
         if (bytes_of(y1) != bytes_of(y2)) viol(ctx, inst, "other-triangle-changes-perform_op", n, 0, 0);
+        stateless_check<T>(ctx, inst, "perform_op", n, x, y1, [&](const DVec<T>& in, DVec<T>& out) { o1.perform_op(in.data(), out.data()); });
         solve_judge<T>(ctx, inst, "perform_op-not-inv(A-sigma*I)*x", n, Fs, x, y1);
         ctx.count("applications", 2);
         with_presentations(P1, [&](const auto& ref, const char* pres) {
@@ -317,6 +336,14 @@ static void reg_sparse_sym_family(const char* siname)
         ctx.count("applications", 4);
         if (t1 || t2) { viol(ctx, inst, "solve-gave-up-on-well-conditioned-B", n, 0, 0); return; }
         if (bytes_of(s1) != bytes_of(s2)) viol(ctx, inst, "other-triangle-changes-solve", n, 0, 0);
+        stateless_check<T>(ctx, inst, "solve", n, x, s1, [&](const DVec<T>& in, DVec<T>& out) { o1.solve(in.data(), out.data()); });
+        {
+            // a small right-hand side after a huge one: judged by its own residual as well
+            DVec<T> hugeb = rvec<T>(r, n) * T(1e9), tmp(n), smallx = x * T(1e-3), smally(n);
+            o1.solve(hugeb.data(), tmp.data());
+            o1.solve(smallx.data(), smally.data());
+            solve_judge<T>(ctx, inst, "solve-not-inv(B)*x/small-after-huge", n, FL, smallx, smally, 10 * cond2<T>(F));
+        }
         // iterative solver: residual at the level of its tolerance (eps) times the conditioning
         solve_judge<T>(ctx, inst, "solve-not-inv(B)*x", n, FL, x, s1, 10 * cond2<T>(F));
         with_presentations(P1, [&](const auto& ref, const char* pres) {
@@ -360,6 +387,7 @@ static void reg_gen_family()
         const DVec<T> x = rvec<T>(r, n);
         DVec<T> y(n);
         op.perform_op(x.data(), y.data());
+        stateless_check<T>(ctx, inst, "perform_op", n, x, y, [&](const DVec<T>& in, DVec<T>& out) { op.perform_op(in.data(), out.data()); });
         solve_judge<T>(ctx, inst, "perform_op-not-inv(A-sigma*I)*x", n, Fs, x, y);
         ctx.count("applications");
         with_presentations(P, [&](const auto& ref, const char* pres) {
@@ -388,6 +416,7 @@ static void reg_gen_family()
         const DVec<T> x = rvec<T>(r, n);
         DVec<T> y(n);
         op.perform_op(x.data(), y.data());
+        stateless_check<T>(ctx, inst, "perform_op", n, x, y, [&](const DVec<T>& in, DVec<T>& out) { op.perform_op(in.data(), out.data()); });
         // y = Re[inv(A - sigma I) x]: forward comparison with an extended-precision solve (a residual test cannot see the imaginary part)
         const VecCLD z = Eigen::FullPivLU<MatCLD>(Fs).solve(VecCLD(x.template cast<CLD>()));
         const LD err = fnorm(VecCLD(y.template cast<CLD>() - VecCLD(z.real().template cast<CLD>()))), allow = C * n * unit<T>() * kap * fnorm(z);
@@ -432,6 +461,7 @@ static void reg_sparse_gen_family(const char* siname)
         const DVec<T> x = rvec<T>(r, n);
         DVec<T> y(n);
         op.perform_op(x.data(), y.data());
+        stateless_check<T>(ctx, inst, "perform_op", n, x, y, [&](const DVec<T>& in, DVec<T>& out) { op.perform_op(in.data(), out.data()); });
         solve_judge<T>(ctx, inst, "perform_op-not-inv(A-sigma*I)*x", n, Fs, x, y);
         ctx.count("applications");
         with_presentations(P, [&](const auto& ref, const char* pres) {
@@ -460,6 +490,7 @@ static void reg_sparse_gen_family(const char* siname)
         const DVec<T> x = rvec<T>(r, n);
         DVec<T> y(n);
         op.perform_op(x.data(), y.data());
+        stateless_check<T>(ctx, inst, "perform_op", n, x, y, [&](const DVec<T>& in, DVec<T>& out) { op.perform_op(in.data(), out.data()); });
         const VecCLD z = Eigen::FullPivLU<MatCLD>(Fs).solve(VecCLD(x.template cast<CLD>()));
         const LD err = fnorm(VecCLD(y.template cast<CLD>() - VecCLD(z.real().template cast<CLD>()))), allow = C * n * unit<T>() * kap * fnorm(z);
         if (!within(ctx, "complex-shift-forward", err, allow)) viol(ctx, inst, "perform_op-not-Re[inv(A-sigma*I)*x]", n, err, allow);
